@@ -189,6 +189,10 @@ func join(a, b Val) Val {
 	if a.K == KSlice && b.K == KSlice && a.S == b.S && a.Off == b.Off {
 		return Val{K: KSlice, S: a.S, Len: -1, Off: a.Off}
 	}
+	if a.K == KIface && b.K == KIface && types.Identical(a.T, b.T) {
+		inner := join(*a.Inner, *b.Inner)
+		return Val{K: KIface, T: a.T, Inner: &inner, Dep: a.Dep || b.Dep}
+	}
 	if a.K == KTuple && b.K == KTuple && len(a.Elems) == len(b.Elems) {
 		out := Val{K: KTuple, Elems: make([]Val, len(a.Elems))}
 		for i := range a.Elems {
@@ -223,6 +227,12 @@ type Interp struct {
 	// Stuck lists branch conditions that never received a value (analysis bug
 	// or unsupported construct): any verdict based on this run is undecided.
 	Stuck []string
+	// collect is set during the extra pass after the top-level fixpoint: only
+	// then are ReachedAny and OnCall fed, so that they describe the fixpoint and
+	// not the transient states on the way to it.
+	collect bool
+	// OnCall observes every call whose callee is known, with argument values.
+	OnCall func(call *ssa.Call, callee *ssa.Function, args []Val, fr *frame)
 	// CutSink receives every integer constant a subject-derived value is compared with.
 	CutSink func(c *big.Int)
 	Sizes   types.Sizes
@@ -339,8 +349,29 @@ func (in *Interp) RunOuter(fn *ssa.Function, args []Val, start *ssa.BasicBlock, 
 			}
 		}
 	}
-	for i := range fr.reached {
-		in.ReachedAny[i] = true
+	if in.depth == 1 && !in.collect {
+		// top level: one more pass over the fixpoint to feed the observers
+		in.collect = true
+		in.ReachedAny = map[ssa.Instruction]bool{}
+		fr.memo = map[ssa.Value]Val{}
+		fr.must = map[ssa.Instruction]bool{}
+		fr.returns = map[*ssa.Return][]Val{}
+		fr.panics = map[ssa.Instruction]bool{}
+		fr.mayPanicCalls = map[*ssa.Call]bool{}
+		fr.reached = map[ssa.Instruction]bool{}
+		for _, b := range fn.Blocks {
+			if fr.blocks[b] {
+				fr.evalBlock(b)
+			}
+		}
+		in.collect = false
+		for i := range fr.reached {
+			in.ReachedAny[i] = true
+		}
+	} else if in.collect {
+		for i := range fr.reached {
+			in.ReachedAny[i] = true
+		}
 	}
 	out.CanPanic = len(fr.panics) > 0 || len(fr.mayPanicCalls) > 0
 	var rets []*ssa.Return
@@ -403,6 +434,15 @@ func (fr *frame) evalBlock(b *ssa.BasicBlock) {
 		switch i := instr.(type) {
 		case *ssa.Store:
 			fr.store(fr.eval(i.Addr), fr.eval(i.Val))
+		case *ssa.MapUpdate:
+			m, k := fr.eval(i.Map), fr.eval(i.Key)
+			if m.K == KPtr && strings.Contains(m.S, "#") {
+				if k.K == KStr || k.K == KInt {
+					fr.store(Val{K: KPtr, S: m.S + "[" + k.String() + "]"}, fr.eval(i.Value))
+				} else if k.K != KBot {
+					fr.store(Val{K: KPtr, S: m.S + "[*]"}, fr.eval(i.Value))
+				}
+			}
 		case *ssa.Call:
 			if fr.must[i] {
 				fr.panics[i] = true
@@ -641,7 +681,19 @@ func (fr *frame) eval1(v ssa.Value) Val {
 		return d
 	case *ssa.Call:
 		return fr.call(x)
-	case *ssa.Range, *ssa.Next, *ssa.Select:
+	case *ssa.Range:
+		return fr.eval(x.X)
+	case *ssa.Next:
+		it := fr.eval(x.Iter)
+		if x.IsString && it.K == KStr && it.S == "" {
+			return Val{K: KTuple, Elems: []Val{boolVal(false), top, top}}
+		}
+		if it.K == KBot {
+			return it
+		}
+		d := topDep(it.Dep)
+		return Val{K: KTuple, Elems: []Val{d, d, d}}
+	case *ssa.Select:
 		return top
 	case *ssa.Global, *ssa.FreeVar, *ssa.Builtin:
 		return top
@@ -816,6 +868,13 @@ func convertVal0(v Val, from, to types.Type, sizes types.Sizes) Val {
 		if isStringType(to) {
 			return v
 		}
+	case KSlice:
+		if isStringType(to) && !strings.Contains(v.S, "#") {
+			if v.Len >= 0 {
+				return symVal(fmt.Sprintf("string(%s[%d:%d])", v.S, v.Off, v.Off+v.Len), v.Dep)
+			}
+			return symVal(fmt.Sprintf("string(%s[%d:?])", v.S, v.Off), v.Dep)
+		}
 	}
 	return topDep(v.Dep)
 }
@@ -913,6 +972,13 @@ func (fr *frame) binop(x *ssa.BinOp) Val {
 			(b.K == KNil && (a.K == KPtr || a.K == KSlice && a.Len > 0 || a.K == KIface || a.K == KFunc)):
 			if x.Op == token.EQL || x.Op == token.NEQ {
 				return bv(x.Op == token.NEQ)
+			}
+		}
+		if fr.in.Symbolic && (a.K == KSym || b.K == KSym) {
+			ta, oka := termOf(a)
+			tb, okb := termOf(b)
+			if oka && okb && len(ta)+len(tb) < 400 {
+				return symVal("("+ta+x.Op.String()+tb+")", dep)
 			}
 		}
 		return topDep(dep)
@@ -1158,6 +1224,9 @@ func (fr *frame) load(path string, t types.Type) Val {
 	// only memory rooted at a fresh allocation is modelled
 	fresh := strings.Contains(path, "#")
 	if !fresh {
+		if _, isMap := t.Underlying().(*types.Map); isMap {
+			return Val{K: KPtr, S: path}
+		}
 		if !in.Symbolic {
 			return top
 		}
@@ -1177,6 +1246,8 @@ func (fr *frame) load(path string, t types.Type) Val {
 			return Val{K: KPtr, S: "(*" + path + ")"}
 		case *types.Basic, *types.Interface:
 			return symVal(path, false)
+		case *types.Map:
+			return Val{K: KPtr, S: path}
 		}
 		return top
 	}
@@ -1264,7 +1335,7 @@ func (fr *frame) call(c *ssa.Call) Val {
 			return unknown(dep)
 		}
 		var parts []string
-		for _, a := range args {
+		for ai, a := range args {
 			switch a.K {
 			case KSlice:
 				if a.Len >= 0 {
@@ -1277,6 +1348,9 @@ func (fr *frame) call(c *ssa.Call) Val {
 			default:
 				t, ok := termOf(a)
 				if !ok {
+					if ai == 0 && callee != nil && callee.Signature.Recv() != nil {
+						continue // receiver of an external method (e.g. binary.BigEndian)
+					}
 					return unknown(dep)
 				}
 				parts = append(parts, t)
@@ -1301,6 +1375,9 @@ func (fr *frame) call(c *ssa.Call) Val {
 			el[i] = mk(res.At(i).Type(), fmt.Sprintf("#%d", i))
 		}
 		return Val{K: KTuple, Elems: el}
+	}
+	if callee != nil && fr.in.OnCall != nil && fr.in.collect {
+		fr.in.OnCall(c, callee, args, fr)
 	}
 	if callee == nil {
 		if com.IsInvoke() {
@@ -1351,10 +1428,20 @@ func (fr *frame) builtin(name string, c *ssa.Call, args []Val) Val {
 			if fr.in.Symbolic && a.Off == 0 {
 				return symVal("len("+a.S+")", a.Dep)
 			}
+			if fr.in.Symbolic {
+				return symVal(fmt.Sprintf("(len(%s)-%d)", a.S, a.Off), a.Dep)
+			}
 		case KNil:
 			return int64Val(0)
 		case KSym:
 			return symVal("len("+a.S+")", a.Dep)
+		case KPtr:
+			if v, ok := fr.in.PathBind["len("+a.S+")"]; ok {
+				return v
+			}
+			if fr.in.Symbolic && !strings.Contains(a.S, "#") {
+				return symVal("len("+a.S+")", a.Dep)
+			}
 		}
 		return topDep(a.Dep)
 	case "append":
